@@ -214,6 +214,8 @@ def generate(prng, tier, index):
           "set_order": prng.choice(("natural", "natural", "reversed", "rotated", "shuffled"))}
     if variant == "faults":
         sc["fault"] = {"query": prng.randrange(nq), "at": prng.randrange(0, 400)}
+        if prng.random() < 0.5:
+            sc["fault"]["line"] = prng.choice((prng.randrange(0, 80), prng.randrange(0, 5000), prng.randrange(0, 100000)))
     return sc
 
 
@@ -351,7 +353,12 @@ def _execute(sc, ctx):
     fault = sc.get("fault")
     for k, phi in enumerate(sc["queries"]):
         tag = f" (query #{k}, phi={phi}, iterations={iters}" + (", after an aborted query on this object)" if faulted else ")")
-        if fault and fault["query"] == k:
+        if fault and fault["query"] == k and fault.get("line") is not None:
+            st, _ = ctx.call(src, shared.theoretical, phi, abort_at_line=fault["line"], label="theoretical[interrupted at line]")
+            if st == "abort":
+                faulted = True
+                tag = f" (query #{k}, phi={phi}, iterations={iters}, after a query interrupted at a library line on this object)"
+        elif fault and fault["query"] == k:
             st, _ = ctx.call(src, shared.theoretical, Exact(Fraction(phi), OpCounter(fail_at=fault["at"])), label="theoretical[faulting]")
             if st == "fault":
                 ctx.fault("operand_raise")
